@@ -91,6 +91,24 @@ Theorem C21_disposed_forever :
 Proof. exact (fun A pynone react => disposed_forever pynone KBehavior react). Qed.
 Print Assumptions C21_disposed_forever.
 
+
+(* a subscribed observer stays registered: on every call tree, an observer whose
+   wrapper is not stopped (it subscribed, has not unsubscribed, has received no
+   terminal) is in the observer list of a live subject -- i.e. in the snapshot
+   `self.observers.copy()` of the next emission *)
+Theorem C21_subscribed_observer_is_in_the_snapshot :
+  forall (A : Type) (pynone : A) (react : nat -> nat -> list (@op A)) (v0 : A) (top : list (@op A)) (fuel o : nat) os,
+    let c := run (behavior_cls pynone) react fuel (init_cfg v0 top) in
+    c_obs c o = Some os -> a_stopped os = false -> subject_live (c_st c) -> In o (observers (c_st c)).
+Proof. exact (fun A pynone react v0 => live_observer_registered pynone KBehavior react v0). Qed.
+Print Assumptions C21_subscribed_observer_is_in_the_snapshot.
+
+Theorem C21_emission_goes_to_the_snapshot :
+  forall (A : Type) (pynone : A) (s : @sstate A) (v : A),
+    snd (c_next (behavior_cls pynone) s v) = map (fun o => IDeliver o (Next v)) (observers s).
+Proof. exact (@behavior_next_snapshot). Qed.
+Print Assumptions C21_emission_goes_to_the_snapshot.
+
 (* ---- witnesses (pool ids: 0 = None, 1 = 0, 2 = False, 3 = '') ---- *)
 (* initial value None handed to the first subscriber; the second one gets the
    last value; after completion the third gets only completion *)
